@@ -247,4 +247,155 @@ def m_ignore_unit(ex, args, pc):
     return [([], ("tuple", []))]
 
 
-UNITS = {"c12_mapping": c12_mapping, "c10_trigger": c10_trigger}
+# ---------------------------------------------------------------------------------------------
+def _ok_type(callee):
+    """`<Result<T, E> as Try>::branch` -> T"""
+    import re
+    m = re.search(r"<Result<(.*), std::io::Error> as Try>::branch", callee)
+    if not m:
+        raise mir.MirError("unexpected Try::branch instance: " + callee)
+    return m.group(1)
+
+
+def m_try_branch(ex, args, pc):
+    v = args[0]
+    if v[0] == "adt" and v[1] == "Result":
+        if v[2] == 0:
+            return [([], ("adt", "ControlFlow", 0, {0: v[3][0]}))]
+        return [([], ("adt", "ControlFlow", 1, {0: ("adt", "Result", 1, {0: v[3][0]})}))]
+    # result of an uninterpreted call: both outcomes, with typed fresh payloads
+    okty = _ok_type(ex.current_callee)
+    isok = ex.fresh_bool("is_ok_" + v[1])
+    payload = ex.fresh_of_type("ok_" + v[1], okty)
+    errv = ("opaque", "err_" + v[1], "io::Error")
+    ex.decls.append((errv[1], "Int"))
+    ex.try_info[v[1]] = dict(is_ok=isok[1], payload=payload, err=errv)
+    return [([isok[1]], ("adt", "ControlFlow", 0, {0: payload})),
+            (["(not %s)" % isok[1]], ("adt", "ControlFlow", 1, {0: ("adt", "Result", 1, {0: errv})}))]
+
+
+def m_from_residual(ex, args, pc):
+    return [([], args[0])]
+
+
+def m_deref_identity(ex, args, pc):
+    return [([], args[0])]
+
+
+def m_vec_len(ex, args, pc):
+    vec = ex.project(args[0], ("deref",))
+    if vec[0] != "opaque":
+        raise mir.MirError("Vec::len of a non-opaque value")
+    name = "len_" + vec[1]
+    if name not in ex.vec_lens:
+        ex.decls.append((name, "Int"))
+        ex.range_asserts.append("(and (<= 0 %s) (<= %s 18446744073709551615))" % (name, name))
+        ex.vec_lens[name] = True
+    return [([], ("int", name, 64, False))]
+
+
+def m_update_new(ex, args, pc):
+    ev = ("opaque", "to_evict_%d" % next(ex.counter), "Vec<CachedFile>")
+    mb = ("opaque", "to_move_back_%d" % next(ex.counter), "Vec<CachedFile>")
+    ex.decls.append((ev[1], "Int"))
+    ex.decls.append((mb[1], "Int"))
+    ret = ("adt", "Update", 0, {0: ev, 1: mb})
+    ex.calls_seen.append(("Update::new", args, list(pc), ret))
+    return [([], ret)]
+
+
+def c07_prune_glue(funcs, text):
+    """raw_cache::prune = apply_update . Update::new . collect_cached_files, with the capacity and
+    the directory passed through unchanged and the returned (estimate, evicted) computed from the
+    listing count and the plan.  The three callees are left uninterpreted here (each is decided by
+    its own Kani harnesses); only their proven contracts are assumed:
+      collect_cached_files: count >= number of candidates          [KV-C07 in raw_collect_*]
+      Update::new:          |to_evict| <= number of candidates     [KV-C08 'plan never larger than the input']"""
+    f = _fn(funcs, "prune")
+    ex = _fresh_executor(funcs, inline=lambda name: False, models={
+        r"<PathBuf as Deref>::deref$": m_deref_identity,
+        r"as Try>::branch$": m_try_branch,
+        r"as FromResidual<.*>>::from_residual$": m_from_residual,
+        r"Vec::<CachedFile>::len$": m_vec_len,
+        r"Update::<CachedFile>::new": m_update_new,
+    })
+    ex.try_info = {}
+    ex.vec_lens = {}
+    dirv = ("opaque", "dir_arg", "PathBuf")
+    ex.decls.append(("dir_arg", "Int"))
+    cap = ex.fresh_int("capacity", 64)
+    res = ex.run(f, [dirv, cap])
+    obs = []
+    calls = ex.calls_seen
+
+    def calls_on(pc):
+        return [c for c in calls if c[2] == pc[:len(c[2])]]
+
+    def fail(msg):
+        return Obligation(msg, ex.decls, [], "false", [f], note="structural mismatch found while reading the MIR")
+
+    def ok(msg):
+        return Obligation(msg, ex.decls, [], "true", [f], note="structural (value identity on the MIR data flow)")
+
+    n_success = 0
+    for i, (pc, rv, env) in enumerate(res):
+        cs = calls_on(pc)
+        names = [c[0].split("::<")[0].split("::")[-1] if c[0] != "Update::new" else "Update::new" for c in cs]
+        if rv[0] == "adt" and rv[1] == "Result" and rv[2] == 0:
+            n_success += 1
+            # success path
+            if names != ["collect_cached_files", "Update::new", "apply_update"]:
+                obs.append(fail("prune calls collect_cached_files, Update::new, apply_update exactly once, in this order (saw %r)" % (names,)))
+                continue
+            col, upd, app = cs
+            info = ex.try_info.get(col[3][1])
+            obs.append(ok("prune calls collect_cached_files, Update::new, apply_update exactly once, in this order"))
+            listing_ok = info is not None and upd[1][0] == info["payload"][1][0]
+            obs.append(ok("the planner receives exactly the listing") if listing_ok else fail("the planner receives exactly the listing"))
+            dir_ok = (col[1][0][0] == "ref" and col[1][0][1][0] == dirv) and app[1][0] == dirv
+            obs.append(ok("listing and update act on the directory that was passed in") if dir_ok else fail("listing and update act on the directory that was passed in"))
+            plan_ok = app[1][1] == upd[3]
+            obs.append(ok("apply_update receives exactly the planner's plan") if plan_ok else fail("apply_update receives exactly the planner's plan"))
+            capv = upd[1][1]
+            obs.append(Obligation("the planner receives exactly the capacity that was passed in", ex.decls, ex.range_asserts + pc,
+                                  "(= %s %s)" % (capv[1], cap[1]), [f]))
+            if info is not None:
+                count = info["payload"][1][1][1]
+                evl = "len_" + upd[3][3][0][1]
+                contracts = ["(>= %s len_listing)" % count, "(<= %s len_listing)" % evl]
+                decls = ex.decls + [("len_listing", "Int")]
+                est, nev = rv[3][0][1][0][1], rv[3][0][1][1][1]
+                obs.append(Obligation("prune returns (count - evicted, evicted)", decls, ex.range_asserts + contracts + pc,
+                                      "(and (= %s (- %s %s)) (= %s %s))" % (est, count, evl, nev, evl), [f]))
+        elif rv[0] == "adt" and rv[1] == "Result" and rv[2] == 1:
+            # error path: the callee's error is returned as is, nothing else is attempted after it
+            last = cs[-1]
+            src_ok = False
+            if last[0] != "Update::new":
+                info = ex.try_info.get(last[3][1])
+                src_ok = info is not None and rv[3][0] == info["err"]
+            obs.append(ok("an error of %s is returned to the caller unchanged" % names[-1]) if src_ok
+                       else fail("an error of %s is returned to the caller unchanged" % names[-1]))
+            if names[-1] == "collect_cached_files":
+                obs.append(ok("nothing is deleted when the listing fails") if len(cs) == 1 else fail("nothing is deleted when the listing fails"))
+    if n_success != 1:
+        obs.append(fail("prune has exactly one success path (found %d)" % n_success))
+    # internal assertion and arithmetic never fail under the callee contracts
+    for j, (desc, pc, cond, where) in enumerate(ex.obligations):
+        cs = calls_on(pc)
+        extra = []
+        decls = list(ex.decls)
+        if cs and cs[0][0].endswith("collect_cached_files"):
+            info = ex.try_info.get(cs[0][3][1])
+            if info is not None:
+                decls.append(("len_listing", "Int"))
+                extra.append("(>= %s len_listing)" % info["payload"][1][1][1])
+                for c in cs:
+                    if c[0] == "Update::new":
+                        extra.append("(<= len_%s len_listing)" % c[3][3][0][1])
+        obs.append(Obligation("prune never panics: %s [#%d]" % (desc, j), decls, ex.range_asserts + extra + pc, cond, [f],
+                              note="under the callee contracts quoted from the Kani harnesses"))
+    return obs, dict(models=sorted(ex.models_used), inlined=[f])
+
+
+UNITS = {"c12_mapping": c12_mapping, "c10_trigger": c10_trigger, "c07_prune_glue": c07_prune_glue}
